@@ -4,7 +4,11 @@ CONSTANTS
   Ext = {0, 1, 2, 3}
   Ext3 = {0, 1, 2, 3}
   MaxRank = 3
-  RootSmall = TRUE
+  RootSet = "small"
+  Layouts = {"C", "F", "col"}
+  LayCtors = {"ctor_a", "mul_unit"}
+  MixQuick = FALSE
+  MixRich = FALSE
   IntSet <- IntsB
   SliceSet = {"from1", "step2", "rev"}
   FancySet = {"f00"}
